@@ -45,6 +45,8 @@ int main() {
   mjData* da = mj_makeData(m); apply(da);
   std::vector<std::vector<std::vector<unsigned char>>> ref(steps);
   for (int k = 0; k < steps; k++) { call(da); snap(da, ref[k]); }
+  int nzs = 0, lasts = 0;   // non-zero sensor readings of the reference run (vacuity guard of the sensor models)
+  for (int k = 0; k < m->nsensordata; k++) if (da->sensordata[k] != 0) { nzs++; if (k >= m->nsensordata - 3) lasts = 1; }
   for (int r = 0; r < reps; r++) {
     mjData* db = mj_makeData(m); apply(db);
     mju_threadpool(db, nthread);
@@ -53,7 +55,7 @@ int main() {
       call(db); snap(db, cur);
       for (size_t f = 0; f < fields.size(); f++) if (cur[f] != ref[k][f]) { bad = fields[f]; badstep = k; break; }
     }
-    printf("rep %d %s %d ncon=%d nefc=%d nisland=%d\n", r, bad.empty() ? "eq" : bad.c_str(), badstep, db->ncon, db->nefc, db->nisland);
+    printf("rep %d %s %d ncon=%d nefc=%d nisland=%d nsens=%d nzs=%d lasts=%d\n", r, bad.empty() ? "eq" : bad.c_str(), badstep, db->ncon, db->nefc, db->nisland, (int)m->nsensordata, nzs, lasts);
     mj_deleteData(db);
   }
   return 0;
